@@ -387,7 +387,7 @@ def run(ctx):
             ops = ["c", "i", "i", "S", "r"] if not th else ["c", "i", "I", "S", "i", "r"]
             tasks.append(dict(specs=sp, ops=ops, first=None))
         sp3 = specs_for(N, ("quad0", "mono", "const"))
-        tasks.append(dict(specs=sp3, ops=["c", "i", "S"] if not th else ["c", "i", "S", "r"], first=None))
+        tasks.append(dict(specs=sp3, ops=["c", "i", "S"] if not (th and N == 1) else ["c", "i", "S", "r"], first=None))
     # what the solvers of one execution may legitimately have in common: one SolverParameters object, the default
     # parameters argument, one Problem object; dimensions 5/6 next to 2 so that a per-dimension adjustment of a
     # shared object would show
